@@ -14,7 +14,9 @@ that tests a variable differs from the view that tests the variable's definition
 `lo OP X OP hi` (in a filter or a variable) differs from its conjunction twin `lo OP X and X OP hi` in the same file or
 from the verdict recomputed from the independently recomputed X (X below / inside / above / on the bounds); views with
 byte-identical filter text but different view-local variables (or a local shadowing a global), in every order, differ
-from the verdict recomputed from each view's own threshold (systematic corpus family + random draws)."""
+from the verdict recomputed from each view's own threshold (systematic corpus family + random draws); a view whose
+(local or global) variable cannot be evaluated while a same-named global / primitive would make the filter true lists
+somebody; by(week|day|year) probes on payments in Jan 1-7 / Dec 25-31 of one year (2020-2026) != strftime re-computation."""
 import ast
 import copy
 import json
@@ -64,11 +66,17 @@ def gen_merchants(rnd):
         excluded = rnd.random() < 0.18
         mtags = [t for t in ['food', 'Recurring', 'biz'] if rnd.random() < 0.3]
         txns = []
+        yearedge = rnd.random() < 0.15        # payments in Jan 1-7 and Dec 25-31 of ONE year (week / year boundaries)
+        ye_year = rnd.choice([2020, 2021, 2023, 2024, 2025, 2026])
         for _ in range(k):
             mo = rnd.choice(months)
             y, m = y0 + mo // 12, 1 + mo % 12
             dmax = DAYS[m - 1]
             d = rnd.choice([1, 2, 8, 14, 15, 16, 22, 28, dmax, rnd.randint(1, dmax)])
+            if yearedge:
+                y = ye_year
+                m, d = rnd.choice([(1, rnd.randint(1, 7)), (12, rnd.randint(25, 31)), (1, rnd.randint(1, 7)), (12, rnd.randint(25, 31)),
+                                   (rnd.randint(2, 11), rnd.randint(1, 28))])
             if style == 'steady':
                 a = base
             elif style == 'lumpy':
@@ -232,6 +240,50 @@ def chain_consistent(case, v):
     env.update(dict(dict_defs(v['vars'])))
     text = env.get('rng') if v['filter'] == 'rng' else v['filter']
     return text is not None and v['chain'].get('text', text) == text
+
+
+FAIL_EXPRS = ['2 * avg(paymnts)', 'sum(payments) - zz_fee', 'category + 1', 'max(sum(by("quarter")))', 'zz_nofn(payments)',
+              'payments[0]', 'total / category']
+
+
+def failvar_family(tag, pick=None):
+    """Views whose (view-local or global) variable cannot be evaluated while an OUTER binding of the same name — a global
+    or a built-in primitive — would make the filter true.  The failed variable is None, the ordering comparison on it
+    cannot be evaluated, the view must list nobody.  Returns (globals, views); views carry 'must_empty' = [scope, name, expr]."""
+    pick = pick or (lambda l: l[0])
+    bad = pick(FAIL_EXPRS)
+    shape = pick(['local-over-global', 'local-over-primitive', 'global-over-primitive', 'local-over-global-arith',
+                  'local-over-primitive-months'])
+    globs, views = [], []
+    if shape == 'local-over-global':
+        globs.append(['sfl', '-1000000'])
+        views.append({'name': f'Fv{tag}c', 'vars': [], 'filter': 'total > sfl'})                       # control: reads the global
+        views.append({'name': f'Fv{tag}', 'vars': [['sfl', bad]], 'filter': 'total > sfl', 'must_empty': ['local', 'sfl', bad]})
+    elif shape == 'local-over-global-arith':
+        globs.append(['sfl', '1'])
+        views.append({'name': f'Fv{tag}', 'vars': [['sfl', bad]], 'filter': '(sfl + months) >= 1', 'must_empty': ['local', 'sfl', bad]})
+        views.append({'name': f'Fv{tag}c', 'vars': [], 'filter': '(sfl + months) >= 1'})
+    elif shape == 'local-over-primitive':
+        views.append({'name': f'Fv{tag}', 'vars': [['total', bad]], 'filter': 'total > -1000000', 'must_empty': ['local', 'total', bad]})
+        views.append({'name': f'Fv{tag}c', 'vars': [], 'filter': 'total > -1000000'})
+    elif shape == 'local-over-primitive-months':
+        views.append({'name': f'Fv{tag}c', 'vars': [], 'filter': 'months >= 1'})
+        views.append({'name': f'Fv{tag}', 'vars': [['months', bad]], 'filter': 'months >= 1', 'must_empty': ['local', 'months', bad]})
+    else:
+        globs.append(['cv', bad])
+        views.append({'name': f'Fv{tag}', 'vars': [], 'filter': 'cv >= 0 or cv < 0', 'must_empty': ['global', 'cv', bad]})
+    if pick([False, True]):
+        views.reverse()
+    return globs, views
+
+
+def must_empty_consistent(case, v):
+    scope, name, expr = v['must_empty']
+    defs = dict(dict_defs(v['vars'] if scope == 'local' else case['globals']))
+    prims = {'category', 'subcategory', 'merchant', 'total', 'months', 'cv', 'payments', 'tags'}
+    others = ({n.lower() for n, _ in case['globals']} | {n.lower() for n, _ in v['vars']}) - {name}
+    # (another variable shadowing a primitive could make the "unevaluable" definition evaluable: no claim then)
+    return defs.get(name) == expr and (scope == 'local' or name not in dict(dict_defs(v['vars']))) and not (prims & others)
 
 
 def same_truth(meta, m):
@@ -527,6 +579,10 @@ def gen_case(rnd, focus=None):
         gl, vs = same_text_family(ms, str(len(case['views'])), rnd.choice)
         case['globals'] += gl
         case['views'] += vs
+    if rnd.random() < .2 and not ({'months', 'total', 'cv', 'sfl'} & {n for n, _ in case['globals']}):
+        gl, vs = failvar_family(str(len(case['views'])), rnd.choice)
+        case['globals'] += gl
+        case['views'] += vs
     if rnd.random() < .05 and len(case['views']) >= 2 and 'chain' not in case['views'][0] and \
             not case['views'][-1]['name'].startswith('Ch'):
         case['views'][-1]['name'] = case['views'][0]['name']          # duplicate view name
@@ -666,6 +722,7 @@ def oracle(case, results):
             bad.append(('parse-structure', None, {'parsed': main['parsed'], 'written': want}))
             return bad
     ms = bm_order(case)
+    prims = {'category', 'subcategory', 'merchant', 'total', 'months', 'cv', 'payments', 'tags', 'true', 'false'}
     run = main['run']
     own = main.get('own_true', {})
     if 'error' in run:
@@ -707,7 +764,6 @@ def oracle(case, results):
             bad.append(('membership-iff-filter', sig, {'view': v['name'], 'listed': members, 'filter_true_of': expect}))
         if total is None or total != sum(tot[x] for x in members) or count != len(members):
             bad.append(('view-total-is-sum', None, {'view': v['name'], 'total_ticks': total, 'count': count, 'members': members}))
-        prims = {'category', 'subcategory', 'merchant', 'total', 'months', 'cv', 'payments', 'tags', 'true', 'false'}
         # (a variable that shadows a primitive can make an ill-typed filter well-typed: then nothing is claimed)
         if v.get('must_error') and members and names.count(v['name']) == 1 and not (shadowed & prims):
             bad.append(('filter-error-excludes', None, {'view': v['name'], 'listed': members}))
@@ -726,7 +782,8 @@ def oracle(case, results):
                     bad.append(('primitive-recomputed:' + v['probe'][0], sig,
                                 {'view': v['name'], 'filter': v['filter'], 'merchant': m['name'], 'expected': t, 'listed': m['name'] in members}))
                     break
-        if 'twin' in v and v['twin'] < len(case['views']) and not dup:
+        # (a variable shadowing a primitive may be defined after the twin variable and before the filters: no claim then)
+        if 'twin' in v and v['twin'] < len(case['views']) and not dup and not (prims & shadowed):
             other = case['views'][v['twin']]
             if other['filter'] == '(' + dict(case['globals'] + v['vars']).get(v['twin_var'], '') + ')':
                 m2 = got.get(other['name'], ([],))[0]
@@ -745,6 +802,10 @@ def oracle(case, results):
                 if sorted(members) != sorted(m2):
                     bad.append(('chain-means-conjunction', None, {'chained_view': v['name'], 'lists': members,
                                                                  'conjunction_view': ch['twin_name'], 'lists_': m2}))
+        if 'must_empty' in v and members and names.count(v['name']) == 1 and must_empty_consistent(case, v):
+            bad.append(('failed-variable-excludes', None,
+                        {'view': v['name'], 'variable': v['must_empty'][1], 'unevaluable_definition': v['must_empty'][2],
+                         'scope': v['must_empty'][0], 'filter': v['filter'], 'listed': members}))
         if 'same' in v and names.count(v['name']) == 1 and same_consistent(case, v) and \
                 not ({'months', 'total', 'count', 'payments'} & shadowed):
             expect_sm = sorted(m['name'] for m in ms if not spec_excluded(m) and same_truth(v['same'], m))
@@ -1244,6 +1305,37 @@ def corpus_cases():
                         # and with an unrelated view of the same filter-text family in front / behind
                         vs = [{'name': 'All', 'vars': [], 'filter': 'True'}] + vs + [{'name': 'All2', 'vars': [['sfloor', '1']], 'filter': 'True'}]
                     out.append(mk(vs, fam_ms, gl))
+    # a variable that cannot be evaluated, shadowing a global / a primitive under which the filter would be true
+    for e_i in range(len(FAIL_EXPRS)):
+        for shape_i in range(5):
+            for rev in range(2):
+                choices = iter([e_i, shape_i, rev])
+
+                def pick2(l, it=choices):
+                    return l[next(it, 0) % len(l)]
+                gl, vs = failvar_family('x', pick2)
+                out.append(mk(vs, [A, Bm, Cm], gl))
+    # year edges: payments in Jan 1-7 and Dec 25-31 of one calendar year, under by("week") / by("day") / by("year")
+    for year in (2020, 2021, 2023, 2024, 2025, 2026):
+        ems = []
+        for j in range(7):
+            tx = [{'d': f'{year}-01-{1 + j:02d}', 'a': 640, 'tags': []}, {'d': f'{year}-12-{31 - j:02d}', 'a': 1280, 'tags': []}]
+            if j % 3 == 0:
+                tx.insert(1, {'d': f'{year}-06-{10 + j:02d}', 'a': 64, 'tags': []})
+            if j % 2 == 1:
+                tx.append({'d': f'{year + 1}-01-0{1 + j % 5}', 'a': 320, 'tags': []})
+            ems.append({'name': f'E{j}', 'cat': 'Food', 'sub': '', 'txns': tx})
+        pv = []
+        for fld in ('week', 'day', 'year', 'month'):
+            for k in (1, 2, 3, 4):
+                pv.append({'name': f'G{fld}{k}', 'vars': [], 'filter': f'count(sum(by("{fld}"))) == {k}', 'probe': ['groups', fld, k]})
+            for k in (1, 2):
+                pv.append({'name': f'B{fld}{k}', 'vars': [], 'filter': f'max(count(by("{fld}"))) == {k}', 'probe': ['biggest', fld, k]})
+        out.append(mk(pv, ems))
+        # same week written twice around New Year (Dec 29 .. Jan 4 are one Monday-based week but two %W weeks)
+        out.append(mk(pv[:6], [{'name': 'NY', 'cat': 'Food', 'sub': '', 'txns': [
+            {'d': f'{year}-12-{d:02d}', 'a': 64, 'tags': []} for d in (28, 29, 30, 31)] + [
+            {'d': f'{year + 1}-01-{d:02d}', 'a': 64, 'tags': []} for d in (1, 2, 3, 4, 5)]}]))
     return out
 
 
